@@ -79,6 +79,7 @@ def install():
     except Exception:
         pass
     _installed = True
+    install_det_hash()
     return R
 
 
@@ -103,11 +104,50 @@ def set_thread_mode(asynchronous):
     ctp._DISABLED = not asynchronous
 
 
+_hash_counter = [0]
+_hash_salt = [0]
+
+
+def _det_hash(self):
+    """Deterministic replacement for the default id()-based __hash__ of objects the code under test keeps in sets and as dict keys
+    (shares, servers, observers, request tokens): the number is assigned at first use from a per-case counter, so the iteration order
+    of such sets is a function of the case (creation/first-use order and the case's 'hsalt'), not of memory addresses."""
+    d = self.__dict__
+    h = d.get("_vf_h")
+    if h is None:
+        _hash_counter[0] += 1
+        h = d["_vf_h"] = ((_hash_counter[0] * 0x9E3779B1) ^ (_hash_salt[0] * 0x85EBCA6B)) & 0x3FFFFFFF
+    return h
+
+
+def install_det_hash():
+    import importlib
+    for modname, clsname in (("allmydata.immutable.downloader.share", "Share"), ("allmydata.immutable.downloader.share", "CommonShare"),
+                             ("allmydata.immutable.downloader.finder", "RequestToken"), ("allmydata.immutable.downloader.fetcher", "SegmentFetcher"),
+                             ("allmydata.immutable.downloader.node", "Cancel"), ("allmydata.util.observer", "EventStreamObserver"),
+                             ("allmydata.util.observer", "OneShotObserverList"), ("allmydata.storage_client", "NativeStorageServer"),
+                             ("allmydata.storage_client", "HTTPNativeStorageServer"), ("allmydata.immutable.layout", "WriteBucketProxy"),
+                             ("allmydata.immutable.layout", "ReadBucketProxy"), ("allmydata.mutable.layout", "MDMFSlotReadProxy"),
+                             ("allmydata.immutable.upload", "ServerTracker"), ("vf.grid", "RemoteRef"), ("vf.grid", "ServerNode")):
+        try:
+            cls = getattr(importlib.import_module(modname), clsname)
+        except Exception:
+            continue
+        if "__hash__" not in cls.__dict__ and "__eq__" not in cls.__dict__ and "__slots__" not in cls.__dict__:
+            cls.__hash__ = _det_hash
+
+
+def set_hash_salt(n):
+    _hash_salt[0] = int(n or 0)
+
+
 def reseed(n=0):
     """Called at the start of every case: same pseudo-random environment for
     every case, so a case is a pure function of its JSON description."""
     URANDOM.reseed(n)
     random.seed(n)
+    _hash_counter[0] = 0
+    _hash_salt[0] = 0
 
 
 def now():
